@@ -9,7 +9,7 @@ results mapped through the free-parameter index); the confidence level handed to
 s-sigma contour is the two-dimensional one; the error band is the linear propagation J_free C_free
 J_free^T.  Accuracy of numerical Hessians / MINOS / contour heuristics is sampled concretely."""
 from props import backend as B
-from props.backend import setup_concrete, setup_symbolic  # noqa: F401
+from props.backend import setup_concrete  # noqa: F401
 from props.fitlib import xy_lin, xy_quad
 from vx import oracle as O
 from vx import stubs
@@ -24,6 +24,11 @@ META = dict(
     exhaustive=dict(quick=True, thorough=True),
 )
 OPTS = dict(quick=dict(task_timeout=400, ob_ms=20000), thorough=dict(task_timeout=900, ob_ms=40000))
+
+
+def setup_symbolic():
+    stubs.install_backends(True)
+    stubs.install_special()
 
 
 def _adapter(minimizer):
